@@ -51,6 +51,9 @@ class FuncInfo:
         self.cls = cls  # ClassInfo or None
         self.parent = parent
         self.qual = (cls.qual + "." if cls else mod + ".") + node.name
+        self.is_property = False
+        self.is_static = False
+        self.is_classmethod = False
 
     @property
     def short(self):
@@ -66,6 +69,7 @@ class ClassInfo:
         self.node = node
         self.qual = mod + "." + node.name
         self.methods = {}
+        self.setters = {}
         self.attrs = {}  # class-level assignments name -> value expr
 
     def __repr__(self):
@@ -167,6 +171,14 @@ class Program:
             for b in n.body:
                 if isinstance(b, (ast.FunctionDef, ast.AsyncFunctionDef)):
                     fi = FuncInfo(m.name, b, cls=ci)
+                    decos = [ast.unparse(d) for d in b.decorator_list]
+                    fi.is_property = "property" in decos
+                    fi.is_static = "staticmethod" in decos
+                    fi.is_classmethod = "classmethod" in decos
+                    if any(d.endswith((".setter", ".deleter")) for d in decos):
+                        ci.setters[b.name] = fi
+                        self.functions[fi.qual + ".setter"] = fi
+                        continue
                     ci.methods[b.name] = fi
                     self.functions[fi.qual] = fi
                 elif isinstance(b, ast.Assign):
